@@ -159,8 +159,43 @@ mod ffi {
 """)
 
 
+def lifetimes_bridge():
+    """borrowing structs nested in borrowing structs with lifetime parameters that are permuted, collapsed, shifted, partly 'static;
+    as arguments, as results, as fields of out structs; next to slices and opaques with several lifetimes"""
+    return """#[diplomat::bridge]
+mod ffi {
+    use diplomat_runtime::{DiplomatStrSlice, DiplomatSlice};
+    #[diplomat::opaque]
+    pub struct Op(pub u8);
+    #[diplomat::opaque]
+    pub struct Two<'h, 'k>(pub &'h u8, pub &'k u8);
+    pub struct Single<'x> { pub a: &'x Op }
+    pub struct Pair<'x, 'y> { pub a: &'x Op, pub b: &'y Op, pub s: DiplomatStrSlice<'y> }
+    pub struct Collapsed<'a> { pub pair: Pair<'a, 'a> }
+    pub struct Shifted<'p, 'q> { pub single: Single<'q>, pub o: &'p Op }
+    pub struct Swapped<'p, 'q> { pub pair: Pair<'q, 'p> }
+    pub struct Deep<'u, 'v, 'w> { pub sw: Swapped<'w, 'u>, pub sh: Shifted<'v, 'v>, pub bytes: DiplomatSlice<'w, u8> }
+    pub struct Mixed<'m> { pub one: Single<'m>, pub other: Single<'m>, pub two: &'m Two<'m, 'm> }
+    #[diplomat::out]
+    pub struct OutDeep<'u, 'v> { pub c: Collapsed<'v>, pub s: Shifted<'v, 'u>, pub t: Box<Two<'u, 'v>> }
+    impl Op {
+        pub fn collapsed<'a>(&'a self, c: Collapsed<'a>) -> Collapsed<'a> { c }
+        pub fn shifted<'p, 'q>(&'p self, s: Shifted<'p, 'q>, t: &'q Op) -> Shifted<'q, 'p> { Shifted { single: Single { a: self }, o: t } }
+        pub fn swapped<'p, 'q>(s: Swapped<'p, 'q>) -> Pair<'p, 'q> { Pair { a: s.pair.b, b: s.pair.a, s: "".into() } }
+        pub fn deep<'u, 'v, 'w>(d: Deep<'u, 'v, 'w>, m: Mixed<'v>) -> Deep<'w, 'v, 'u> where 'u: 'w, 'w: 'u { let _ = m; Deep { sw: Swapped { pair: d.sw.pair }, sh: d.sh, bytes: d.bytes } }
+        pub fn out<'u, 'v>(&'u self, c: Collapsed<'v>, x: &'v Op) -> OutDeep<'u, 'v> { OutDeep { c, s: Shifted { single: Single { a: self }, o: x }, t: Box::new(Two(&self.0, &x.0)) } }
+        pub fn two<'h, 'k>(&'h self, o: &'k Op, sw: Swapped<'k, 'h>) -> Box<Two<'k, 'h>> { let _ = sw; Box::new(Two(&o.0, &self.0)) }
+    }
+    impl<'p, 'q> Shifted<'p, 'q> {
+        pub fn inner(self) -> Single<'q> { self.single }
+        pub fn back(self, c: Collapsed<'p>) -> Swapped<'q, 'p> { Swapped { pair: Pair { a: c.pair.a, b: self.single.a, s: "".into() } } }
+    }
+}
+"""
+
+
 def bridges():
-    return [("docs", docs_bridge()), ("docs_traits", docs_bridge(True)), ("special", special_bridge())]
+    return [("docs", docs_bridge()), ("docs_traits", docs_bridge(True)), ("special", special_bridge()), ("lifetimes", lifetimes_bridge())]
 
 
 URL_ARGS = [[], ["-u", "*:https://example.org/api"], ["-u", "foo:https://foo.example/docs/", "-u", "bar:https://bar.example"]]
